@@ -52,6 +52,9 @@ type Scn struct {
 	CloseAt  int    `json:"close_at"` // close the listener after this many connections have been injected (-1: at the end)
 	Procs    int    `json:"procs"`    // GOMAXPROCS = capacity of the hand-off channel
 	Payload  int    `json:"payload"`  // bytes after the kind/id prefix
+	// Two: the same ListenerWrapper wraps two listeners (a server with two listen addresses);
+	// connection i arrives on listener i%2 and must come out of that listener's Accept
+	Two bool `json:"two_listeners,omitempty"`
 }
 
 const routesJSON = `[
@@ -96,6 +99,7 @@ type accepted struct {
 	dup  bool
 	tls  bool   // the connection exposes ConnectionState()
 	sni  string // ... and this server name
+	via  int    // which wrapped listener's Accept returned it
 }
 
 type result struct {
@@ -132,8 +136,14 @@ func execute(x *explore.Exec, sc *Scn) *result {
 		}
 		inner := vnet.NewListener(vnet.TCP("10.0.0.1", 443))
 		ln := lw.WrapListener(inner)
+		inners, lns := []*vnet.Listener{inner}, []net.Listener{ln}
+		if sc.Two {
+			in2 := vnet.NewListener(vnet.TCP("10.0.0.1", 8443))
+			inners, lns = append(inners, in2), append(lns, lw.WrapListener(in2))
+		}
 		consumerDone := false
-		consume := func() {
+		consumeOn := func(via int) {
+			ln := lns[via]
 			for {
 				c, err := ln.Accept()
 				if err != nil {
@@ -152,7 +162,7 @@ func execute(x *explore.Exec, sc *Scn) *result {
 				}
 				// the consumer answers on the connection it was given: it must still be usable
 				_, werr := c.Write(append([]byte("re:"), data...))
-				a := accepted{data: data, err: rerr.Error()}
+				a := accepted{data: data, err: rerr.Error(), via: via}
 				if cs, ok := c.(interface{ ConnectionState() tls.ConnectionState }); ok {
 					st := cs.ConnectionState()
 					a.tls, a.sni = st.HandshakeComplete, st.ServerName
@@ -166,12 +176,24 @@ func execute(x *explore.Exec, sc *Scn) *result {
 				c.Close()
 			}
 		}
-		if sc.Consumer == "eager" {
+		consume := func() { consumeOn(0) }
+		startConsumers := func() {
 			vsched.GoNamed("consumer", func() { consume(); consumerDone = true })
+			if sc.Two {
+				vsched.GoNamed("consumer2", func() { consumeOn(1) })
+			}
+		}
+		closeAll := func() {
+			for _, l := range lns {
+				l.Close()
+			}
+		}
+		if sc.Consumer == "eager" {
+			startConsumers()
 		}
 		for i := 0; i < len(sc.Conns); i++ {
 			if sc.CloseAt == i {
-				ln.Close()
+				closeAll()
 				res.closed = true
 			}
 			cl, sv := vnet.Pipe(fmt.Sprintf("c%d", i), fmt.Sprintf("s%d", i), vnet.TCP("192.0.2.9", 40000+i), vnet.TCP("10.0.0.1", 443))
@@ -191,7 +213,7 @@ func execute(x *explore.Exec, sc *Scn) *result {
 					tc.CloseWrite()
 					io.Copy(io.Discard, tc)
 				})
-				inner.Inject(sv)
+				inners[i%len(inners)].Inject(sv)
 				res.injected++
 				continue
 			}
@@ -199,16 +221,16 @@ func execute(x *explore.Exec, sc *Scn) *result {
 			if sc.Conns[i] != 'U' {
 				cl.CloseWrite()
 			}
-			inner.Inject(sv)
+			inners[i%len(inners)].Inject(sv)
 			res.injected++
 		}
 		if sc.Consumer == "late" {
 			vtime.Sleep(3 * time.Second) // after every matching phase has ended one way or another
-			vsched.GoNamed("consumer", func() { consume(); consumerDone = true })
+			startConsumers()
 		}
 		vtime.Sleep(5 * time.Second)
 		if sc.CloseAt < 0 || sc.CloseAt >= len(sc.Conns) {
-			ln.Close()
+			closeAll()
 			res.closed = true
 		}
 		vtime.Sleep(5 * time.Second)
@@ -225,10 +247,12 @@ func execute(x *explore.Exec, sc *Scn) *result {
 		}
 		_ = consumerDone
 		res.taken = map[int]bool{}
-		for _, c := range inner.AcceptedConns {
-			for i, sv := range res.servers {
-				if c == net.Conn(sv) {
-					res.taken[i] = true
+		for _, in := range inners {
+			for _, c := range in.AcceptedConns {
+				for i, sv := range res.servers {
+					if c == net.Conn(sv) {
+						res.taken[i] = true
+					}
 				}
 			}
 		}
@@ -283,6 +307,13 @@ func check(x *explore.Exec, sc *Scn, r *result) {
 			if len(a.data) > 1 && a.data[1] == byte('0'+i) && a.data[0] == kind && string(a.data) != want ||
 				(kind == 'G' && strings.HasPrefix(string(full[2:]), string(a.data)) && len(a.data) > 0 && string(a.data) != want) {
 				x.Fail("handover-stream-not-intact", "connection %d (%q) was handed over reading %q; %s", i, full, a.data, desc())
+			}
+		}
+		if sc.Two {
+			for _, a := range r.accepted {
+				if string(a.data) == want && a.via != i%2 {
+					x.Fail("delivered-by-wrong-listener", "connection %d arrived on wrapped listener %d but came out of listener %d's Accept; %s", i, i%2, a.via, desc())
+				}
 			}
 		}
 		if count[want] > 0 && !r.servers[i].ReadDeadline().IsZero() {
@@ -348,7 +379,7 @@ func check(x *explore.Exec, sc *Scn, r *result) {
 		x.Fail("accept-error", "Accept failed with %q; %s", r.acceptErr, desc())
 	}
 	for _, b := range r.out.Blocked {
-		if !strings.HasPrefix(b, "main:") && !strings.HasPrefix(b, "consumer:") && !strings.HasPrefix(b, "tlsclient") {
+		if !strings.HasPrefix(b, "main:") && !strings.HasPrefix(b, "consumer") && !strings.HasPrefix(b, "tlsclient") {
 			x.Fail("thread-left-blocked:"+b[strings.Index(b, ":")+1:], "after Close and quiescence a wrapper thread is still blocked: %s; %s", b, desc())
 		}
 	}
@@ -385,6 +416,16 @@ func scenarios(tier string, yield0 func(any) bool) {
 		// client's stream from the first unconsumed byte (plain, after a consuming route, after
 		// PROXY-header stripping, after TLS termination followed by further matching)
 		mixes = []string{"F", "G", "W", "S", "FG", "WS", "GW"}
+	}
+	// one wrapper instance around two listeners
+	if os.Getenv("VERIF_C13_SUBSET") == "" {
+		for _, m := range []string{"F", "FF", "FG"} {
+			for _, cons := range []string{"eager", "late"} {
+				if !yield(&Scn{Conns: m, Consumer: cons, CloseAt: -1, Procs: 1, Payload: 3, Two: true}) {
+					return
+				}
+			}
+		}
 	}
 	for _, m := range mixes {
 		for _, cons := range []string{"eager", "late", "never"} {
@@ -457,6 +498,9 @@ func main() {
 			}
 			if tier != "thorough" && len(sc.Conns) > 1 {
 				ex.Bounds[explore.KTime] = 1
+			}
+			if sc.Two && len(sc.Conns) > 1 && tier != "thorough" {
+				ex.Total = 2 // two consumers: more threads, same depth as the other mixes
 			}
 			if strings.Contains(sc.Conns, "S") {
 				// a TLS handshake is ~100 scheduling points per execution
